@@ -58,3 +58,17 @@ fn vfind_c02_keyid_high_bits_malleable() {
     node.trigger_socket_event();
     assert!(node.device().pop_outbound().is_some());
 }
+
+/// C13 / F2: priority-tagged frames (802.1Q tag with VLAN id 0) count as untagged
+#[test]
+fn vfind_c13_vlan0_is_untagged() {
+    for tci_hi in [0x00u8, 0xe0, 0x10] {
+        let tagged = [6, 5, 4, 3, 2, 1, 1, 2, 3, 4, 5, 6, 0x81, 0x00, tci_hi, 0x00, 0x08, 0x00, 9, 9];
+        let plain = [6, 5, 4, 3, 2, 1, 1, 2, 3, 4, 5, 6, 0x08, 0x00, 9, 9];
+        let (s1, d1) = Frame::parse(&tagged).unwrap();
+        let (s2, d2) = Frame::parse(&plain).unwrap();
+        assert_eq!(s1, s2);
+        assert_eq!(d1, d2);
+        assert_eq!(s1.len, 6);
+    }
+}
